@@ -101,6 +101,10 @@ func apply(prev *ring.Desc, u update, now time.Time, share bool) *ring.Desc {
 		}
 		next.Ingesters[id] = in
 	}
+	if k1, k2, two := strings.Cut(u.kind, "+"); two {
+		// one write that changes two things at once (a lifecycler that re-picks tokens while heartbeating, …)
+		return apply(apply(prev, update{k1, u.who}, now, share), update{k2, u.who}, now, share)
+	}
 	in, ok := next.Ingesters[u.who]
 	switch u.kind {
 	case "resend":
@@ -294,6 +298,7 @@ func alphabet() []update {
 			a = append(a, update{k, who})
 		}
 	}
+	a = append(a, update{"tokens+heartbeat", "i1"}, update{"tokens+state", "i1"}, update{"zone+heartbeat", "i2"})
 	a = append(a, update{"add", "i9"}, update{"remove", "i9"}, update{"resend", ""}, update{"advance", ""}, update{"ro-toggle", "i0"})
 	return a
 }
@@ -305,7 +310,7 @@ func TestC13Ring(t *testing.T) {
 		depth = 4
 	}
 	alpha := alphabet()
-	rep.Bound = fmt.Sprintf("base ring of 4 instances (one read-only) with boundary tokens; %d update kinds (heartbeat-only, state-only, tokens, zone, address, registration time, read-only toggle, read-only timestamp, add, remove, resend-equal, clock +60s); every sequence of length <=%d; 4 variants: zone-awareness on/off × descriptors sharing token arrays with their predecessor (memberlist style) or deep copies; query vector of ~190 answers per step (Get on boundary keys, counts, zones, GetInstance, token ranges, ShuffleShard / ShuffleShardWithLookback for 2 identifiers × 3 sizes × 3 query times in alternating non-monotonic order, and Get / members / counts on every returned subring)", len(alpha), depth)
+	rep.Bound = fmt.Sprintf("base ring of 4 instances (one read-only) with boundary tokens; %d update kinds (heartbeat-only, state-only, tokens, zone, address, registration time, read-only toggle, read-only timestamp, add, remove, resend-equal, clock +60s, and three double changes in one write: tokens+heartbeat, tokens+state, zone+heartbeat); every sequence of length <=%d; 4 variants: zone-awareness on/off × descriptors sharing token arrays with their predecessor (memberlist style) or deep copies; query vector of ~190 answers per step (Get on boundary keys, counts, zones, GetInstance, token ranges, ShuffleShard / ShuffleShardWithLookback for 2 identifiers × 3 sizes × 3 query times in alternating non-monotonic order, and Get / members / counts on every returned subring)", len(alpha), depth)
 	rep.Rule = "each sequence is pushed through the real KV watch callback of a long-lived ring client (caches on) inside its own virtual-time bubble; after every step every answer must equal that of a client freshly built from the latest descriptor with caches off; distinct_nontrivial = sequences containing at least one update that the client may absorb without re-indexing (heartbeat/state/resend) after a shard was cached"
 	deadline := ev.Deadline(8 * time.Minute)
 	variants := []variant{{false, false}, {false, true}, {true, false}, {true, true}}
